@@ -40,6 +40,8 @@ func c02(c *Ctx) {
 	c02R5(c)
 	c02R6(c)
 	c03R6(c)
+	ruleCASPublication(c, "C02.R8", "Node", map[string]string{"Finalizers": "removed on deletion; no assignment is decided on it"})
+	itemIndependent(c, "C02.R7", [][3]string{{nodeCtlPkg, "ReconcileNode.getPods", "one request per pod"}})
 }
 
 func c02R1(c *Ctx) {
